@@ -33,19 +33,25 @@ def _run(args, env=None, timeout=1800, cwd=SPEC_DIR, props=()):
     if env:
         e.update(env)
     t0 = time.time()
-    for attempt in range(3):
-        try:
-            p = subprocess.run(_java_cmd(props) + args, cwd=cwd, env=e, stdout=subprocess.PIPE,
-                               stderr=subprocess.STDOUT, timeout=timeout)
-        except subprocess.TimeoutExpired as ex:
-            subprocess.run(["pkill", "-f", "tlc2[.]TLC.*" + re.escape(args[-1])], check=False)
-            raise TlcError("TLC timeout after %ss: %s" % (timeout, " ".join(args)))
-        out = p.stdout.decode("utf-8", "replace")
-        # the JVM itself could not start (memory pressure from other processes): nothing was checked - try again
-        if attempt < 2 and "TLC2 Version" not in out and any(m in out for m in _JVM_START_FAILURES):
-            time.sleep(5 * (attempt + 1))
-            continue
-        break
+    # TLC leaves a tlc-<n> directory in java.io.tmpdir on every start: give every invocation a private one and remove it
+    jtmp = tempfile.mkdtemp(prefix="mxv-jtmp-")
+    props = list(props) + ["-Djava.io.tmpdir=" + jtmp]
+    try:
+        for attempt in range(3):
+            try:
+                p = subprocess.run(_java_cmd(props) + args, cwd=cwd, env=e, stdout=subprocess.PIPE,
+                                   stderr=subprocess.STDOUT, timeout=timeout)
+            except subprocess.TimeoutExpired as ex:
+                subprocess.run(["pkill", "-f", "tlc2[.]TLC.*" + re.escape(args[-1])], check=False)
+                raise TlcError("TLC timeout after %ss: %s" % (timeout, " ".join(args)))
+            out = p.stdout.decode("utf-8", "replace")
+            # the JVM itself could not start (memory pressure from other processes): nothing was checked - try again
+            if attempt < 2 and "TLC2 Version" not in out and any(m in out for m in _JVM_START_FAILURES):
+                time.sleep(5 * (attempt + 1))
+                continue
+            break
+    finally:
+        shutil.rmtree(jtmp, ignore_errors=True)
     return p.returncode, out, time.time() - t0
 
 
